@@ -3,12 +3,25 @@ import Csvq.Model.Session
 namespace Csvq.Drive
 open Csvq.Session
 
-abbrev Tbl := List Int
+/-- a table as the driver sees it: the file attribute that decides how it is written (line break: 0 = LF,
+    1 = CRLF, 2 = CR) and the rows.  The session model is polymorphic in the
+    table type, so attributes travel with the cached view exactly as the rows do. -/
+abbrev Tbl := Nat × List Int
 
-def parseTbl (s : String) : Option Tbl :=
+def parseRows (s : String) : Option (List Int) :=
   if s = "e" then some [] else (s.splitOn ",").mapM String.toInt?
 
-def showTbl (t : Tbl) : String := if t.isEmpty then "e" else String.intercalate "," (t.map toString)
+def parseTbl (s : String) : Option Tbl :=
+  match s.splitOn "/" with
+  | [a, r] => do
+    let a ← a.toNat?
+    let r ← parseRows r
+    pure (a, r)
+  | [r] => (parseRows r).map (fun r => (0, r))
+  | _ => none
+
+def showRows (t : List Int) : String := if t.isEmpty then "e" else String.intercalate "," (t.map toString)
+def showTbl (t : Tbl) : String := toString t.1 ++ "/" ++ showRows t.2
 
 def nFiles : Nat := 4
 def nTemps : Nat := 2
@@ -16,24 +29,28 @@ def nTemps : Nat := 2
 def showState (s : State Tbl) : String :=
   let files := (List.range nFiles).map fun p =>
     if s.created p then "new" else match s.disk p with | some c => showTbl c | none => "-"
-  let temps := (List.range nTemps).map fun t => match s.temps t with | some x => showTbl x.cur | none => "-"
+  let temps := (List.range nTemps).map fun t => match s.temps t with | some x => showRows x.cur.2 | none => "-"
   let held := (List.range nFiles).filter (fun p => locked s p && (s.disk p).isSome)
   let locks := if held.isEmpty then "-" else String.intercalate "," (held.map toString)
   "disk:" ++ String.intercalate ";" files ++ "#L:" ++ locks ++ "|temps:" ++ String.intercalate ";" temps
 
 def showOut : Out Tbl → String
-  | .rows c => "rows:" ++ showTbl c
+  | .rows c => "rows:" ++ showRows c.2
   | .ok => "ok"
   | .failed => "failed"
+
+def onRows (f : List Int → Option (List Int)) : Tbl → Option Tbl := fun c => (f c.2).map (fun r => (c.1, r))
 
 /-- the data-changing statements the harness generates -/
 def dmlFn (kind : String) (arg : Int) : Tbl → Option Tbl :=
   match kind with
-  | "append" => fun c => some (c ++ [arg])
-  | "delwhere" => fun c => some (c.filter (· ≠ arg))
-  | "incr" => fun c => some (c.map (· + 1))
-  | "fail" => fun c => if c.isEmpty then some c else none     -- UPDATE … SET v = 1 / (v - v)
-  | "incrfail" => fun c => if c.contains arg then none else some (c.map (· + 1))   -- fails part-way
+  | "append" => onRows fun c => some (c ++ [arg])
+  | "delwhere" => onRows fun c => some (c.filter (· ≠ arg))
+  | "incr" => onRows fun c => some (c.map (· + 1))
+  | "fail" => onRows fun c => if c.isEmpty then some c else none     -- UPDATE … SET v = 1 / (v - v)
+  | "incrfail" => onRows fun c => if c.contains arg then none else some (c.map (· + 1))   -- fails part-way
+  -- ALTER TABLE … SET LINE_BREAK TO LF|CRLF|CR (setting the current value is accepted with a notice)
+  | "setlb" => fun c => some (arg.toNat % 2, c.2)
   | _ => fun _ => none
 
 def c01stepCore (s : State Tbl) (cmd : String) (args : List String) : State Tbl × String :=
@@ -57,8 +74,8 @@ def c01stepCore (s : State Tbl) (cmd : String) (args : List String) : State Tbl 
         match load s1 q true with
         | none => (s1, showOut (Out.failed : Out Tbl) ++ "|" ++ showState s1)
         | some (s2, cq) =>
-          let rows := cp.flatMap (fun x => (cq.filter (· = x)).map (fun _ => x))
-          (s2, showOut (Out.rows rows) ++ "|" ++ showState s2)
+          let rows := cp.2.flatMap (fun x => (cq.2.filter (· = x)).map (fun _ => x))
+          (s2, showOut (Out.rows ((0, rows) : Tbl)) ++ "|" ++ showState s2)
     | _, _ => bad
   | "deljoin", [p, q, a] =>
     -- DELETE a, b FROM p a LEFT JOIN q b ON a.v = b.v WHERE a.v = k: both files are taken for update (p first);
@@ -71,13 +88,13 @@ def c01stepCore (s : State Tbl) (cmd : String) (args : List String) : State Tbl 
         match load s1 q true with
         | none => (s1, showOut (Out.failed : Out Tbl) ++ "|" ++ showState s1)
         | some (_, _) =>
-          let has := cp.contains k
+          let has := cp.2.contains k
           let s2 := (step s1 (.dml p (dmlFn "delwhere" k))).1
           let r := step s2 (.dml q (if has then dmlFn "delwhere" k else some))
           (r.1, showOut r.2 ++ "|" ++ showState r.1)
     | _, _, _ => bad
-  | "create", [p] => match p.toNat? with | some p => run (.create p []) | none => bad
-  | "dtemp", [t] => match t.toNat? with | some t => run (.declareTemp t []) | none => bad
+  | "create", [p] => match p.toNat? with | some p => run (.create p (0, [])) | none => bad
+  | "dtemp", [t] => match t.toNat? with | some t => run (.declareTemp t (0, [])) | none => bad
   | "dmltemp", [t, k, a] => match t.toNat?, a.toInt? with | some t, some a => run (.dmlTemp t (dmlFn k a)) | _, _ => bad
   | "commit", [] => run .commit
   | "rollback", [] => run .rollback
